@@ -1269,6 +1269,9 @@ impl<'a> Tr<'a> {
 
     fn pat_int_cond(&mut self, scrut: &str, p: &Pat) -> R<Option<String>> {
         // returns Some(condition) or None for wildcard / binding
+        if let Some(c) = self.t6r2_const_pat(p) {
+            return Ok(Some(format!("({scrut} == {c})")));
+        }
         match p {
             Pat::Lit(l) => {
                 if let Lit::Int(i) = &l.lit {
@@ -2765,7 +2768,7 @@ impl<'a> Tr<'a> {
         let scrut_ty = self.type_of(&m.expr);
         let lhs_ty = lhs.and_then(|l| self.type_of(l));
         let scrut = self.expr(&m.expr)?;
-        if arms.iter().any(|a| matches!(a.pat, Pat::Lit(PatLit { lit: Lit::Int(_), .. }) | Pat::Range(_))) {
+        if arms.iter().any(|a| matches!(a.pat, Pat::Lit(PatLit { lit: Lit::Int(_), .. }) | Pat::Range(_)) || self.t6r2_const_pat(&a.pat).is_some()) {
             // integer patterns: an if / else chain, the last arm is the default (rustc checks exhaustiveness)
             if lhs.is_some() {
                 return Err("assignment from a statement-level match on integers".into());
